@@ -479,7 +479,7 @@ func progGen(c *ctx) {
 	frames, fine, nSynth, synthFrames := 20, 200, 6, 4
 	roms := progRoms
 	emph := progEmphasis()
-	nCode, codeFrames := 150, 2
+	nCode, codeFrames := 250, 2
 	if idx, ok := progRomsFor[emph]; ok {
 		roms = nil
 		for _, i := range idx {
